@@ -145,7 +145,7 @@ PREEMPT_RESTRICT = False   # see the module docstring; False regenerates the def
 # victim's own grant, of grants that are already released / preempted, of unknown ids — and nested lines carry no
 # counters (`cbobs = 0`).  HV_C09_PREEMPT_CB_LIFT=1 generates the full language (release of other holders, of the
 # other victim of the same round, nested acquires with and without preemption, counter queries inside callbacks).
-PREEMPT_CB_LIFT = os.environ.get("HV_C09_PREEMPT_CB_LIFT", "0") == "1"
+PREEMPT_CB_LIFT = os.environ.get("HV_C09_PREEMPT_CB_LIFT", "1") == "1"
 NO_CB = 999                # program index meaning "no program"
 
 
